@@ -446,6 +446,11 @@ def pack_into_passes(nng, arch, verbose_packing=False):
                     curr_op.ifm2 is not None and inp == curr_op.ifm2 and next_op.ofm_shapes[0] != curr_op.ifm_shapes[1]
                 ):
                     return False
+            # Nor can curr_op be packed with next_op if it only reads a slice of next_op's ofm
+            if inp == curr_op.ifm and curr_op.read_offsets[0] is not None:
+                return False
+            elif curr_op.ifm2 is not None and inp == curr_op.ifm2 and curr_op.read_offsets[1] is not None:
+                return False
         else:
             return False
 
